@@ -41,6 +41,10 @@ impl LintContext {
             indices
                 .into_iter()
                 .flat_map(|idx| document.get_token(idx))
+                // A zero-width token holds no text. It marks structure (the end of a Markdown
+                // block) that comes and goes with what is written elsewhere: a paragraph added
+                // behind the last one gives that one its closing break.
+                .filter(|t| !t.span.is_empty())
                 .map(|t| {
                     let mut fat = t.to_fat(document.get_source());
 
